@@ -1,5 +1,7 @@
 import Cql.Audit
 import Cql.Props.C16
 import Cql.Props.C16Close
+import Cql.Props.C16AsWritten
 #audit_namespace Cql.Props.C16
 #audit_namespace Cql.Props.C16Close
+#audit_namespace Cql.Props.C16AsWritten
